@@ -757,6 +757,15 @@ def axes_case(rng, k):
     return [float(x) for x in ax], mode
 
 
+def unit_factor(rng, p=0.1):
+    """1.0, or with probability p a factor that puts the shape into very small / very large units (nanometres written in
+    metres, ...).  Everything the checks compare is homogeneous in length, so the oracles do not change; absolute thresholds
+    (isclose / allclose defaults, hard-coded epsilons) in the code under test do."""
+    if rng.random() >= p:
+        return 1.0
+    return float(10 ** rng.uniform(-10, -7)) if rng.random() < 0.7 else float(10 ** rng.uniform(4, 6))
+
+
 def center_case(rng, size, dims=3):
     mode = str(rng.choice(["origin", "generic", "axis", "far"]))
     if mode == "origin":
